@@ -360,11 +360,16 @@ class DOK(SparseArray, NDArrayOperatorsMixin):
     def __setitem__(self, key, value):
         value = np.asarray(value, dtype=self.dtype)
 
-        # 1D fancy indexing
-        if self.ndim == 1 and isinstance(key, Iterable) and all(isinstance(i, int | np.integer) for i in key):
+        # 1D fancy indexing: a list or array of integers (a tuple is an ordinary index tuple)
+        if (
+            self.ndim == 1
+            and not isinstance(key, tuple)
+            and isinstance(key, Iterable)
+            and all(isinstance(i, int | np.integer) for i in key)
+        ):
             key = (key,)
 
-        if isinstance(key, tuple) and all(isinstance(k, Iterable) for k in key):
+        if isinstance(key, tuple) and key and all(isinstance(k, Iterable) for k in key):
             if len(key) != self.ndim:
                 raise NotImplementedError(f"Index sequences for all {self.ndim} array dimensions needed!")
             if not all(len(key[0]) == len(k) for k in key):
